@@ -937,6 +937,8 @@ def m8(ctx):
     compared as polynomials, so their spelling does not matter."""
     prog = ctx.cxx()
 
+    fields = node_fields(prog)
+
     def assigned(f, field):
         out = []
         for n in f.body.walk():
@@ -945,6 +947,12 @@ def m8(ctx):
                 lhs, rhs = n.kids
             if lhs is not None and lhs.kind == 'MemberExpr' and lhs.name == field and _base_is(lhs, 'Node'):
                 out.append((n, rhs))
+            # ... or as a slot of an aggregate initialiser `Node{.num_leaves = ..., ...}`
+            if n.kind == 'InitListExpr' and (n.type or '').endswith('Node') and len(n.kids) == len(fields) \
+                    and field in fields:
+                k = n.kids[fields.index(field)]
+                if k is not None and k.kind not in ('CXXDefaultInitExpr', 'ImplicitValueInitExpr'):
+                    out.append((n, k))
         return out
     # flatten variants: snapshots of the two output sizes, taken before any recursion
     for name in ('PyTreeSpec::FlattenIntoImpl', 'PyTreeSpec::FlattenIntoWithPathImpl'):
